@@ -532,7 +532,8 @@ class Translator:
                 return e.id in known
             if isinstance(e, ast.UnaryOp) and isinstance(e.op, (ast.USub, ast.UAdd)):
                 return is_int(e.operand, known)
-            if isinstance(e, ast.BinOp) and isinstance(e.op, (ast.Add, ast.Sub, ast.Mult, ast.FloorDiv, ast.Mod)):
+            if isinstance(e, ast.BinOp) and isinstance(e.op, (ast.Add, ast.Sub, ast.Mult, ast.FloorDiv, ast.Mod, ast.RShift,
+                                                              ast.LShift)):
                 return is_int(e.left, known) and is_int(e.right, known)
             if isinstance(e, ast.Call) and isinstance(e.func, ast.Name) and e.func.id == 'len':
                 return True
@@ -579,6 +580,13 @@ class Translator:
         self.int_vars.add(c.target.id)
         return ('first', c.target.id, lo, hi, self.expr(c.ifs[0]), self.expr(e.args[1]))
 
+    def truth(self, e) -> tuple:
+        """An expression in a boolean position: a sequence is true when it is not empty."""
+        a = self.arr_name(e)
+        if a is not None:
+            return ('cmp', '>', ('len', a), ('int', 0))
+        return self.expr(e)
+
     def expr(self, e) -> tuple:
         if self.roles.scalar_of is not None:
             hit = self.roles.scalar_of(e, self)
@@ -603,12 +611,16 @@ class Translator:
             if isinstance(e.op, ast.UAdd):
                 return self.expr(e.operand)
             if isinstance(e.op, ast.Not):
-                return ('not', self.expr(e.operand))
+                return ('not', self.truth(e.operand))
         if isinstance(e, ast.BinOp):
             ops = {ast.Add: 'add', ast.Sub: 'sub', ast.Mult: 'mul', ast.Div: 'div', ast.FloorDiv: 'fdiv'}
             for k, v in ops.items():
                 if isinstance(e.op, k):
                     return (v, self.expr(e.left), self.expr(e.right))
+            if isinstance(e.op, (ast.RShift, ast.LShift)) and isinstance(e.right, ast.Constant) \
+                    and isinstance(e.right.value, int) and 0 <= e.right.value <= 16:
+                # shifts of integers by a constant: floor division / multiplication by a power of two
+                return ('fdiv' if isinstance(e.op, ast.RShift) else 'mul', self.expr(e.left), ('int', 2 ** e.right.value))
         if isinstance(e, ast.Call) and isinstance(e.func, ast.Name) and e.func.id == 'len' and len(e.args) == 1:
             a = self.arr_name(e.args[0])
             if a:
@@ -657,9 +669,9 @@ class Translator:
                 left = r
             return parts[0] if len(parts) == 1 else ('and', parts)
         if isinstance(e, ast.BoolOp):
-            return ('and' if isinstance(e.op, ast.And) else 'or', [self.expr(v) for v in e.values])
+            return ('and' if isinstance(e.op, ast.And) else 'or', [self.truth(v) for v in e.values])
         if isinstance(e, ast.IfExp):
-            return ('ite', self.expr(e.test), self.expr(e.body), self.expr(e.orelse))
+            return ('ite', self.truth(e.test), self.expr(e.body), self.expr(e.orelse))
         return ('opaque', ast.unparse(e))
 
     # -- statements --------------------------------------------------------------------
@@ -708,11 +720,11 @@ class Translator:
                     return [('assign', s.target.id, (v, ('var', s.target.id), self.expr(s.value)))]
             return [('havoc', [s.target.id])]
         if isinstance(s, ast.If):
-            return [('if', self.expr(s.test), self.block(s.body), self.block(s.orelse))]
+            return [('if', self.truth(s.test), self.block(s.body), self.block(s.orelse))]
         if isinstance(s, ast.While):
             if s.orelse:
                 raise Unsupported('while/else')
-            return [('while', self.expr(s.test), self.block(s.body), s)]
+            return [('while', self.truth(s.test), self.block(s.body), s)]
         if isinstance(s, ast.For):
             if s.orelse:
                 raise Unsupported('for/else')
